@@ -956,6 +956,8 @@ func main() {
 	e.Sample(3, map[string]any{"value-kind files": len(kds), "residues of object headers modulo 1024 covered": res.count()})
 
 	lap("compressed, all cuts")
+	t.intObjects()
+	lap("integer objects (H-parse)")
 	// incremental updates (hand-written after a Writer document): which trailer MakeReader uses
 	for i := 0; i < e.Pick(2, 40); i++ {
 		t.allCuts(g.updateDoc())
